@@ -573,19 +573,18 @@ func init() {
 			if v := os.Getenv("VERIF_BOUND"); v != "" {
 				fmt.Sscan(v, &bound)
 			}
-			for _, sc := range c08Scenarios(c.Thorough()) {
+			all := c08Scenarios(c.Thorough())
+			for si, sc := range all {
 				if only := os.Getenv("VERIF_ONLY"); only != "" && !strings.HasPrefix(sc.Name, only) {
 					continue
 				}
 				t0 := time.Now()
 				b := bound
-				if strings.HasPrefix(sc.Name, "W5") || strings.HasPrefix(sc.Name, "R3") || strings.HasPrefix(sc.Name, "R4") || sc.Name == "R6" {
+				if strings.HasPrefix(sc.Name, "W5") || strings.HasPrefix(sc.Name, "R3") || strings.HasPrefix(sc.Name, "R4") || strings.HasPrefix(sc.Name, "R5") || sc.Name == "R6" {
 					b-- // fault families (many scenarios) and the two-frame reuse scenario: one bound lower
 				}
-				st := exploreScenario(c, sc, b)
+				st := exploreScenarioDL(c, sc, b, scenarioDeadline(c, si, len(all)))
 				c.Add("ms_"+sc.Name, time.Since(t0).Milliseconds())
-				c.Max("bound_completed_min_is_reported_per_scenario", 0)
-				c.Note("bound_"+sc.Name, fmt.Sprint(st.BoundDone))
 				if c.Shard == 0 {
 					c.Sample(map[string]interface{}{"scenario": sc.Name, "bound_completed": st.BoundDone, "max_choice_points": st.MaxPoints, "threads": st.MaxThreads})
 				}
@@ -597,6 +596,7 @@ func init() {
 			cov["traces_validated_against_impl"] = p.Counters["executions"]
 			cov["distinct_nontrivial"] = p.Counters["executions_with_2+_enabled_threads"]
 			cov["evaluations"] = p.Counters["executions"]
+			cov["preemption_bound_completed_per_scenario"] = boundsCompleted(p)
 			cov["explanation"] = "stateless search: states = scheduler states visited along all executions (one per visible-operation step, not deduplicated); every execution runs the real code, so every trace is an implementation trace"
 		},
 		Replay: func(c *ev.Ctx) { replayScenario(c, c08Scenarios(true)) },
